@@ -7,6 +7,7 @@ import (
 	gofs "io/fs"
 	"os"
 	"path/filepath"
+	"sort"
 	"strings"
 
 	"github.com/moby/patternmatcher"
@@ -19,6 +20,7 @@ func init() {
 	kinds[0x1102] = run1102
 	kinds[0x1103] = run1103
 	kinds[0x1104] = run1104
+	kinds[0x1105] = run1105
 	props["C11"] = genC11
 }
 
@@ -306,6 +308,185 @@ func run1101(in Sx) Sx {
 	return L(L(out...), verdict)
 }
 
+
+// ---- kind 1105: an ON-DISK source walked by the real NewFS, first names of link groups hidden AFTER
+// their inode was registered by the base walk, transferred TWICE into the same destination ----
+// input: (view hidden stack)  hidden = non-directory paths to hide; stack 0: a MapFunc answers Exclude
+//        for them; stack 1: ExcludePatterns (the literal paths) of an OUTER filter over an inner
+//        pass-through NewFilterFS(&FilterOpt{}) that stats every entry (as in TestHardlinkFilter)
+// output: (src_snapshot calls (se1 re1 hung1) dest_snapshot1 #reqs1 (se2 re2 hung2) dest_snapshot2 #reqs2)
+//   src_snapshot / dest_snapshot = independent lstat records (harness/disk.go), calls = stats announced
+//   by WithHardlinkReset(stack(NewFS(src))).Walk, reqs = content requests the receiver sent
+func c11DiskStack(src string, hidden map[string]bool, stack int) (fsutil.FS, error) {
+	base, err := fsutil.NewFS(src)
+	if err != nil {
+		return nil, err
+	}
+	if stack == 0 {
+		return fsutil.NewFilterFS(base, &fsutil.FilterOpt{Map: func(p string, st *types.Stat) fsutil.MapResult {
+			if hidden[p] {
+				return fsutil.MapResultExclude
+			}
+			return fsutil.MapResultKeep
+		}})
+	}
+	inner, err := fsutil.NewFilterFS(base, &fsutil.FilterOpt{})
+	if err != nil {
+		return nil, err
+	}
+	var exc []string
+	for p := range hidden {
+		exc = append(exc, p)
+	}
+	sort.Strings(exc)
+	return fsutil.NewFilterFS(inner, &fsutil.FilterOpt{ExcludePatterns: exc})
+}
+
+// c11GroupXattrs gives regular-file link groups user.* xattrs: they belong to the inode, so every
+// name of the group carries the same set (as llistxattr / lgetxattr report for each name).
+// Returns the number of groups that got xattrs.
+func c11GroupXattrs(r *Rng, v []*MNode, pct int) int {
+	byPath := map[string]*MNode{}
+	var order []*MNode
+	var walk func(dir string, ns []*MNode)
+	walk = func(dir string, ns []*MNode) {
+		for _, k := range ns {
+			p := k.Name
+			if dir != "" {
+				p = dir + "/" + k.Name
+			}
+			byPath[p] = k
+			order = append(order, k)
+			walk(p, k.Kids)
+		}
+	}
+	walk("", v)
+	n := 0
+	done := map[*MNode]bool{}
+	for _, k := range order {
+		if k.Stat.Linkname == "" || os.FileMode(k.Stat.Mode)&os.ModeType != 0 {
+			continue
+		}
+		src := byPath[k.Stat.Linkname]
+		if src == nil {
+			continue
+		}
+		if !done[src] {
+			done[src] = true
+			if r.Chance(pct) {
+				src.Stat.Xattrs = map[string][]byte{"user.k" + string(rune('a'+r.Intn(3))): fillContent(r, 1+r.Intn(6))}
+				if r.Chance(30) {
+					src.Stat.Xattrs["user.z"] = []byte{0, 1, 2}
+				}
+				n++
+			} else {
+				src.Stat.Xattrs = nil
+			}
+		}
+		k.Stat.Xattrs = nil
+		if src.Stat.Xattrs != nil {
+			k.Stat.Xattrs = map[string][]byte{}
+			for a, b := range src.Stat.Xattrs {
+				k.Stat.Xattrs[a] = b
+			}
+		}
+	}
+	return n
+}
+
+// Materialize creates every FIFO / device name as a node of its own; make the further names of such
+// a link group real hard links
+func c11LinkSpecials(view []*MNode, dir string) error {
+	for _, st := range WalkEntries(view) {
+		if st.Linkname != "" && c11Plain(st.Mode) && os.FileMode(st.Mode)&os.ModeType != 0 {
+			p := filepath.Join(dir, st.Path)
+			if err := os.Remove(p); err != nil {
+				return err
+			}
+			if err := os.Link(filepath.Join(dir, st.Linkname), p); err != nil {
+				return err
+			}
+		}
+	}
+	return nil
+}
+
+func c11Errs(res TransferResult) Sx {
+	return L(errClass(res.SendErr), errClass(res.RecvErr), Bool(res.Hung))
+}
+
+func c11Reqs(res TransferResult) int {
+	n := 0
+	for _, lp := range res.Log {
+		if lp.From == "r" && lp.P.Type == types.PACKET_REQ {
+			n++
+		}
+	}
+	return n
+}
+
+func run1105(in Sx) Sx {
+	view := SxView(in.L[0])
+	hidden := map[string]bool{}
+	for _, h := range in.L[1].L {
+		hidden[h.Str()] = true
+	}
+	stack := in.L[2].Int()
+	fail := func(code int) Sx { return L(N(uint64(code))) }
+	work := WorkDir("c11d-")
+	defer os.RemoveAll(work)
+	src, dest := filepath.Join(work, "src"), filepath.Join(work, "dest")
+	if err := os.Mkdir(src, 0755); err != nil {
+		return fail(0xfff0)
+	}
+	if err := os.Mkdir(dest, 0755); err != nil {
+		return fail(0xfff0)
+	}
+	if err := Materialize(view, src); err != nil {
+		return fail(0xfff1)
+	}
+	if err := c11LinkSpecials(view, src); err != nil {
+		return fail(0xfff1)
+	}
+	ssnap, err := SnapshotRaw(src, true)
+	if err != nil {
+		return fail(0xfff2)
+	}
+	fs0, err := c11DiskStack(src, hidden, stack)
+	if err != nil {
+		return fail(0xfff3)
+	}
+	var calls []Sx
+	err = fsutil.WithHardlinkReset(fs0).Walk(context.Background(), "/", func(p string, d gofs.DirEntry, err error) error {
+		if err != nil {
+			return err
+		}
+		fi, err := d.Info()
+		if err != nil {
+			return err
+		}
+		calls = append(calls, StatSx(fi.Sys().(*types.Stat).CloneVT()))
+		return nil
+	})
+	if err != nil {
+		return fail(0xfff4)
+	}
+	var parts []Sx
+	for round := 0; round < 2; round++ {
+		fsr, err := c11DiskStack(src, hidden, stack)
+		if err != nil {
+			return fail(0xfff3)
+		}
+		res := RunTransfer(TransferCfg{Src: fsr, Dest: dest, StreamCap: 16})
+		snap, err := SnapshotRaw(dest, true)
+		if err != nil {
+			return fail(0xfff5)
+		}
+		parts = append(parts, c11Errs(res), RawListSx(snap), NI(c11Reqs(res)))
+	}
+	return L(append([]Sx{RawListSx(ssnap), L(calls...)}, parts...)...)
+}
+
 // c11NearPrefixList: a pattern list on the boundary of filter.go's "prefix-only" classification
 // (NewFilterFS onlyPrefixIncludes / onlyPrefixExcludeExceptions, which arm the SkipDir shortcuts of
 // filterFS.Walk): wildcard-free prefixes (literal, L/*, L/**) plus ONE pattern whose tail is a stack
@@ -470,6 +651,21 @@ func c11FollowCase(r *Rng, v []*MNode, classes map[string]int) (inc, exc, follow
 	}
 	if r.Chance(30) {
 		exc = genPatternList(r, paths, v, classes, 2)
+	}
+	// two requested entries (or an entry and a link to the other) whose resolved paths are
+	// prefix-related as strings but not as paths ("lib" / "lib64"): both must stay in the target set
+	var pairs [][2]string
+	for _, a := range paths {
+		for _, b := range paths {
+			if len(b) > len(a) && strings.HasPrefix(b, a) && b[len(a)] != '/' {
+				pairs = append(pairs, [2]string{a, b})
+			}
+		}
+	}
+	if len(pairs) > 0 && r.Chance(50) {
+		pr := Pick(r, pairs)
+		follow = append(follow, pr[0], pr[1])
+		classes["follow-prefix-named-pair"]++
 	}
 	for n := 1 + r.Intn(3); n > 0; n-- {
 		switch x := r.Intn(10); {
@@ -733,6 +929,10 @@ func genC11(g *Gen) {
 		if i%6 == 5 && r.Bool() { // deep bushy views for the stacked-trailing-glob class
 			v = c10DeepView(r, names)
 		}
+		escaped := i%12 == 10 // names with literal metacharacters, addressed by backslash-escaped patterns
+		if escaped {
+			v = c10DeepView(r, append([]string{"a", "b", "app", "c"}, c10MetaNames...))
+		}
 		if r.Chance(50) {
 			c11LinkGroups(r, v, 35)
 		}
@@ -747,7 +947,20 @@ func genC11(g *Gen) {
 		}
 		var inc, exc []string
 		near := i%6 == 5
+		var escl []string
+		var escSide byte
+		if escaped {
+			escl, escSide = c10EscapedList(r, paths, classes)
+		}
 		switch {
+		case escl != nil && escSide == 'i':
+			inc = escl
+		case escl != nil:
+			exc = escl
+		case escaped: // never build unescaped patterns from names with metacharacters
+			if len(paths) > 0 {
+				inc = []string{c10Escape(Pick(r, paths))}
+			}
 		case near && i/6%2 == 0:
 			inc = c11NearPrefixList(r, paths, 'i')
 			classes["stacked-trailing-globs"]++
@@ -770,12 +983,17 @@ func genC11(g *Gen) {
 					srcs = append(srcs, st.Linkname)
 				}
 			}
-			exc = append(exc, Pick(r, srcs))
+			if q := c10Escape(Pick(r, srcs)); validPattern(q) { // the pattern that matches exactly that path
+				exc = append(exc, q)
+			}
 		}
 		mt := L()
 		cls := "wire"
 		if near {
 			cls += "+stacked-trailing-globs"
+		}
+		if escl != nil {
+			cls += "+escaped-metachars"
 		}
 		if unsafeNames {
 			cls += "+unsafe-names"
@@ -832,6 +1050,9 @@ func genC11(g *Gen) {
 		if i%3 == 0 {
 			names = []string{"a", "b", "ab", "c", "l"}
 		}
+		if i%3 == 1 { // names one of which is a byte prefix of another WITHOUT a separator at the boundary
+			names = []string{"a", "a.", "a-", "a b", "ab", "lib", "lib64", "l"}
+		}
 		v := c11FollowView(r, names)
 		inc, exc, follow := c11FollowCase(r, v, classes)
 		if len(follow) == 0 {
@@ -863,6 +1084,61 @@ func genC11(g *Gen) {
 		} else {
 			g.Emit(0x1104, L(ViewSx(v), stringsSx(inc), stringsSx(exc), stringsSx(follow)), exception && resolved, cls)
 		}
+	}
+	// on-disk sources (real NewFS): hide first names of link groups after the base walk registered
+	// their inode, announce, transfer twice
+	nd := g.Vol(250, 4000)
+	for i := 0; i < nd; i++ {
+		r := g.Rng
+		v := GenView(r, TreeOpts{MaxEntries: 5 + r.Intn(10), MaxDepth: 3, Names: small, Types: r.Chance(35), HardLinks: true, Owners: r.Chance(40)})
+		c11LinkGroups(r, v, 45)
+		xg := c11GroupXattrs(r, v, 70)
+		// members per link source
+		members := map[string]int{}
+		var files []string
+		for _, st := range WalkEntries(v) {
+			if os.FileMode(st.Mode).IsDir() {
+				continue
+			}
+			files = append(files, st.Path)
+			if st.Linkname != "" && c11Plain(st.Mode) {
+				members[st.Linkname]++
+			}
+		}
+		var hid []Sx
+		srcHidden, multi := false, false
+		for _, p := range files {
+			switch {
+			case members[p] > 0 && r.Chance(65):
+				hid = append(hid, S(p))
+				srcHidden = true
+				if members[p] >= 2 {
+					multi = true
+				}
+			case r.Chance(10):
+				hid = append(hid, S(p))
+			}
+		}
+		stack := r.Intn(2)
+		cls := "disk"
+		if stack == 1 {
+			cls += "+nested-filters"
+		} else {
+			cls += "+map-exclude"
+		}
+		if srcHidden {
+			cls += "+first-name-hidden"
+		}
+		if multi {
+			cls += "+two-survivors"
+		}
+		if c11SpecialLinks(v) > 0 {
+			cls += "+nonregular-group"
+		}
+		if xg > 0 {
+			cls += "+group-xattrs"
+		}
+		g.Emit(0x1105, L(ViewSx(v), L(hid...), NI(stack)), srcHidden, cls)
 	}
 	g.Note("c11_pattern_classes", classes)
 	g.Note("c11_skipped_late_shadow_configurations", skippedK1)
